@@ -121,7 +121,7 @@ static bool hexok(const std::string& h)
 static bool argsok(const Toks& t)
 {
 	static const char* all[] = {"new", "newc", "assign", "append", "last", "contains", "starts", "ends", "cmp", "concat",
-		"rconcat", "split", "splitjoin", "join", "replace", "atoi", "atol", "splitdic", "newarr", "newbytes", "todouble", "matof", 0};
+		"rconcat", "split", "splitjoin", "join", "replace", "atoi", "atol", "splitdic", "splitself", "splitsepself", "newarr", "newbytes", "todouble", "matof", 0};
 	const std::string& op = t[0];
 	for (int k = 0; all[k]; k++)
 		if (op == all[k]) { for (size_t i = 1; i < t.size(); i++) if (!hexok(t[i])) return false; return true; }
@@ -220,6 +220,21 @@ static std::string step(const Toks& t)
 	if (op == "rconcat" && na == 1) { Exact d(unhex(t[1])); return show((const char*)d.p + c); }
 	if (op == "split" && na == 1) { Exact d(unhex(t[1])); if (d.n == 0) return "err empty"; return showList(c.split(S(d))); }
 	if (op == "splitjoin" && na == 1) { Exact d(unhex(t[1])); if (d.n == 0) return "err empty"; String sep = S(d); return show(c.split(sep).join(sep)); }
+	// the caller's output array holds the operands: out = [filler, X, filler]
+	if (op == "splitself" && na == 1) {
+		Exact d(unhex(t[1])); if (d.n == 0) return "err empty";
+		Array<String> parts; parts << String("filler-filler-filler-filler") << c << String("filler-filler-filler-filler");
+		parts[1].split(S(d), parts); return showList(parts);
+	}
+	if (op == "splitwsself" && na == 0) {
+		Array<String> parts; parts << String("filler-filler-filler-filler") << c << String("filler-filler-filler-filler");
+		parts[1].split(parts); return showList(parts);
+	}
+	if (op == "splitsepself" && na == 1) {
+		Exact d(unhex(t[1])); if (d.n == 0) return "err empty";
+		Array<String> parts; parts << String("filler-filler-filler-filler") << S(d) << String("filler-filler-filler-filler");
+		c.split(parts[1], parts); return showList(parts);
+	}
 	if (op == "splitws" && na == 0) return showList(c.split());
 	if (op == "join" && na >= 1) {
 		Exact d(unhex(t[1]));
